@@ -1030,6 +1030,15 @@ def _b_sorted(interp, args, kwargs, frame):
     same = z3.ForAll([j], z3.Implies(z3.And(j >= 0, j < src.len),
                                      z3.Select(t, j) == z3.Select(src.arr, j)))
     interp.path.assume(z3.And(nondecr(t), same == nondecr(src.arr)), check=False)
+    _assume_members(interp, t, src.len, src)
+    return SSeq(t, src.len, src.wrap, src.unwrap, 'list', src.sort)
+  if isinstance(src, SSeq) and set(kwargs) <= {'key', 'reverse'}:
+    # sorted(S, key=..., reverse=...): a rearrangement of S (same length, every
+    # element of the result is an element of S); the order itself is not
+    # modelled for opaque keys.
+    t = z3.Array(fresh_name('sorted'), z3.IntSort(), src.sort)
+    _assume_members(interp, t, src.len, src)
+    interp.path.event('assumption', 'sorted(key=...): order not modelled, membership and length only')
     return SSeq(t, src.len, src.wrap, src.unwrap, 'list', src.sort)
   if items is not None:
     keyf = kwargs.get('key')
@@ -1042,6 +1051,12 @@ def _b_sorted(interp, args, kwargs, frame):
         raise pyraise(type(ex), *ex.args)
       return [items[i] for i in order]
   raise unsupported('sorted of symbolic items')
+
+
+def _assume_members(interp, t, n, src):
+  j, i = z3.Int(fresh_name('j')), z3.Int(fresh_name('i'))
+  interp.path.assume(z3.ForAll([j], z3.Implies(z3.And(j >= 0, j < n), z3.Exists(
+      [i], z3.And(i >= 0, i < src.len, z3.Select(t, j) == z3.Select(src.arr, i))))), check=False)
 
 
 def _b_any_all(is_any):
